@@ -161,9 +161,29 @@ class Terms:
             return ("unknown",)
         return self.of_place(p, depth)
 
+    def _mut_borrowed(self):
+        mb = getattr(self, "_mb", None)
+        if mb is None:
+            mb = set()
+            body = self.body
+            for b in body.reachable:
+                for st in body.stmts(b):
+                    if st["k"] == "assign" and st["rv"]["k"] in ("ref", "rawptr") and st["rv"].get("mut"):
+                        mb.add(st["rv"]["place"]["l"])
+            self._mb = mb
+        return mb
+
     def of_place(self, p, depth=0):
         t = self.of_local(p["l"], depth)
-        for e in p["p"]:
+        proj = p["p"]
+        # a component of a tuple literal held in a temporary nobody can write through:
+        # `match (a >= b, state) { (true, _) => ..` reads `a >= b`
+        if proj and isinstance(proj[0], dict) and "f" in proj[0] and t[0] == "agg" and t[1] == "tuple" \
+                and isinstance(proj[0]["f"], int) and proj[0]["f"] < len(t[2]) and p["l"] not in self._mut_borrowed() \
+                and len(self.body.defs.get(p["l"], [])) == 1:
+            t = t[2][proj[0]["f"]]
+            proj = proj[1:]
+        for e in proj:
             t = self.project(t, e, depth)
         return t
 
